@@ -88,7 +88,7 @@ mod verif_c03 {
         code
     }
 
-    // @harness id=C03 tier=thorough timeout=3400 mem=16 checks=rust
+    // @harness id=C03 tier=deep timeout=3400 mem=16 checks=rust
     // @bounds one ordinary (rate-limitable) redraw of a live member, from any Inv_multi state with zombie pattern 00 (bit i = member i is a dropped bar still in the order); live member acted on: 1
     #[kani::proof]
     #[kani::unwind(6)]
@@ -99,7 +99,7 @@ mod verif_c03 {
         kani::cover!(c & 1 == 0);
     }
 
-    // @harness id=C03 tier=thorough timeout=3400 mem=16 checks=rust
+    // @harness id=C03 tier=deep timeout=3400 mem=16 checks=rust
     // @bounds one ordinary (rate-limitable) redraw of a live member, from any Inv_multi state with zombie pattern 01 (bit i = member i is a dropped bar still in the order); live member acted on: 1
     #[kani::proof]
     #[kani::unwind(6)]
@@ -110,7 +110,7 @@ mod verif_c03 {
         kani::cover!(c & 1 == 0);
     }
 
-    // @harness id=C03 tier=thorough timeout=3400 mem=16 checks=rust
+    // @harness id=C03 tier=deep timeout=3400 mem=16 checks=rust
     // @bounds one ordinary (rate-limitable) redraw of a live member, from any Inv_multi state with zombie pattern 10 (bit i = member i is a dropped bar still in the order); live member acted on: 0
     #[kani::proof]
     #[kani::unwind(6)]
@@ -121,7 +121,7 @@ mod verif_c03 {
         kani::cover!(c & 1 == 0);
     }
 
-    // @harness id=C03 tier=thorough timeout=3400 mem=16 checks=rust
+    // @harness id=C03 tier=deep timeout=3400 mem=16 checks=rust
     // @bounds ProgressBar::println on a live member (text line + bar line, forced), from any Inv_multi state with zombie pattern 00 (bit i = member i is a dropped bar still in the order); live member acted on: 1
     #[kani::proof]
     #[kani::unwind(6)]
@@ -132,7 +132,7 @@ mod verif_c03 {
         kani::cover!(c & 8 != 0);
     }
 
-    // @harness id=C03 tier=thorough timeout=3400 mem=16 checks=rust
+    // @harness id=C03 tier=deep timeout=3400 mem=16 checks=rust
     // @bounds ProgressBar::println on a live member (text line + bar line, forced), from any Inv_multi state with zombie pattern 01 (bit i = member i is a dropped bar still in the order); live member acted on: 1
     #[kani::proof]
     #[kani::unwind(6)]
@@ -143,7 +143,7 @@ mod verif_c03 {
         kani::cover!(c & 4 != 0);
     }
 
-    // @harness id=C03 tier=thorough timeout=3400 mem=16 checks=rust
+    // @harness id=C03 tier=deep timeout=3400 mem=16 checks=rust
     // @bounds ProgressBar::println on a live member (text line + bar line, forced), from any Inv_multi state with zombie pattern 10 (bit i = member i is a dropped bar still in the order); live member acted on: 0
     #[kani::proof]
     #[kani::unwind(6)]
@@ -154,7 +154,7 @@ mod verif_c03 {
         kani::cover!(c & 4 != 0);
     }
 
-    // @harness id=C03 tier=thorough timeout=3400 mem=16 checks=rust
+    // @harness id=C03 tier=deep timeout=3400 mem=16 checks=rust
     // @bounds MultiProgress::println, from any Inv_multi state with zombie pattern 00 (bit i = member i is a dropped bar still in the order); live member acted on: 1
     #[kani::proof]
     #[kani::unwind(6)]
@@ -165,7 +165,7 @@ mod verif_c03 {
         kani::cover!(c & 8 != 0);
     }
 
-    // @harness id=C03 tier=thorough timeout=3400 mem=16 checks=rust
+    // @harness id=C03 tier=deep timeout=3400 mem=16 checks=rust
     // @bounds MultiProgress::println, from any Inv_multi state with zombie pattern 01 (bit i = member i is a dropped bar still in the order); live member acted on: 1
     #[kani::proof]
     #[kani::unwind(6)]
@@ -176,7 +176,7 @@ mod verif_c03 {
         kani::cover!(c & 4 != 0);
     }
 
-    // @harness id=C03 tier=thorough timeout=3400 mem=16 checks=rust
+    // @harness id=C03 tier=deep timeout=3400 mem=16 checks=rust
     // @bounds MultiProgress::println, from any Inv_multi state with zombie pattern 10 (bit i = member i is a dropped bar still in the order); live member acted on: 0
     #[kani::proof]
     #[kani::unwind(6)]
@@ -187,7 +187,7 @@ mod verif_c03 {
         kani::cover!(c & 4 != 0);
     }
 
-    // @harness id=C03 tier=thorough timeout=3400 mem=16 checks=rust
+    // @harness id=C03 tier=deep timeout=3400 mem=16 checks=rust
     // @bounds MultiProgress::println, from any Inv_multi state with zombie pattern 11 (bit i = member i is a dropped bar still in the order)
     #[kani::proof]
     #[kani::unwind(6)]
@@ -198,7 +198,7 @@ mod verif_c03 {
         kani::cover!(c & 4 != 0);
     }
 
-    // @harness id=C03 tier=thorough timeout=3400 mem=16 checks=rust
+    // @harness id=C03 tier=deep timeout=3400 mem=16 checks=rust
     // @bounds MultiProgress::clear, from any Inv_multi state with zombie pattern 00 (bit i = member i is a dropped bar still in the order); live member acted on: 1
     #[kani::proof]
     #[kani::unwind(6)]
@@ -209,7 +209,7 @@ mod verif_c03 {
         kani::cover!(c & 8 != 0);
     }
 
-    // @harness id=C03 tier=thorough timeout=3400 mem=16 checks=rust
+    // @harness id=C03 tier=deep timeout=3400 mem=16 checks=rust
     // @bounds MultiProgress::clear, from any Inv_multi state with zombie pattern 01 (bit i = member i is a dropped bar still in the order); live member acted on: 1
     #[kani::proof]
     #[kani::unwind(6)]
@@ -220,7 +220,7 @@ mod verif_c03 {
         kani::cover!(c & 4 != 0);
     }
 
-    // @harness id=C03 tier=thorough timeout=3400 mem=16 checks=rust
+    // @harness id=C03 tier=deep timeout=3400 mem=16 checks=rust
     // @bounds MultiProgress::clear, from any Inv_multi state with zombie pattern 10 (bit i = member i is a dropped bar still in the order); live member acted on: 0
     #[kani::proof]
     #[kani::unwind(6)]
@@ -231,7 +231,7 @@ mod verif_c03 {
         kani::cover!(c & 4 != 0);
     }
 
-    // @harness id=C03 tier=thorough timeout=3400 mem=16 checks=rust
+    // @harness id=C03 tier=deep timeout=3400 mem=16 checks=rust
     // @bounds MultiProgress::clear, from any Inv_multi state with zombie pattern 11 (bit i = member i is a dropped bar still in the order)
     #[kani::proof]
     #[kani::unwind(6)]
@@ -242,7 +242,7 @@ mod verif_c03 {
         kani::cover!(c & 4 != 0);
     }
 
-    // @harness id=C03 tier=thorough timeout=3400 mem=16 checks=rust
+    // @harness id=C03 tier=deep timeout=3400 mem=16 checks=rust
     // @bounds a live member is dropped (forced final draw, then mark_zombie), from any Inv_multi state with zombie pattern 00 (bit i = member i is a dropped bar still in the order); live member acted on: 1
     #[kani::proof]
     #[kani::unwind(6)]
@@ -253,7 +253,7 @@ mod verif_c03 {
         kani::cover!(c & 8 != 0);
     }
 
-    // @harness id=C03 tier=thorough timeout=3400 mem=16 checks=rust
+    // @harness id=C03 tier=deep timeout=3400 mem=16 checks=rust
     // @bounds a live member is dropped (forced final draw, then mark_zombie), from any Inv_multi state with zombie pattern 01 (bit i = member i is a dropped bar still in the order); live member acted on: 1
     #[kani::proof]
     #[kani::unwind(6)]
@@ -264,7 +264,7 @@ mod verif_c03 {
         kani::cover!(c & 4 != 0);
     }
 
-    // @harness id=C03 tier=thorough timeout=3400 mem=16 checks=rust
+    // @harness id=C03 tier=deep timeout=3400 mem=16 checks=rust
     // @bounds a live member is dropped (forced final draw, then mark_zombie), from any Inv_multi state with zombie pattern 10 (bit i = member i is a dropped bar still in the order); live member acted on: 0
     #[kani::proof]
     #[kani::unwind(6)]
@@ -275,7 +275,7 @@ mod verif_c03 {
         kani::cover!(c & 4 != 0);
     }
 
-    // @harness id=C03 tier=thorough timeout=3400 mem=16 checks=rust
+    // @harness id=C03 tier=deep timeout=3400 mem=16 checks=rust
     // @bounds suspend whose closure writes one line to the terminal, from any Inv_multi state with zombie pattern 00 (bit i = member i is a dropped bar still in the order); live member acted on: 1
     #[kani::proof]
     #[kani::unwind(6)]
@@ -286,7 +286,7 @@ mod verif_c03 {
         kani::cover!(c & 8 != 0);
     }
 
-    // @harness id=C03 tier=thorough timeout=3400 mem=16 checks=rust
+    // @harness id=C03 tier=deep timeout=3400 mem=16 checks=rust
     // @bounds suspend whose closure writes one line to the terminal, from any Inv_multi state with zombie pattern 01 (bit i = member i is a dropped bar still in the order); live member acted on: 1
     #[kani::proof]
     #[kani::unwind(6)]
@@ -297,7 +297,7 @@ mod verif_c03 {
         kani::cover!(c & 4 != 0);
     }
 
-    // @harness id=C03 tier=thorough timeout=3400 mem=16 checks=rust
+    // @harness id=C03 tier=deep timeout=3400 mem=16 checks=rust
     // @bounds suspend whose closure writes one line to the terminal, from any Inv_multi state with zombie pattern 10 (bit i = member i is a dropped bar still in the order); live member acted on: 0
     #[kani::proof]
     #[kani::unwind(6)]
@@ -308,7 +308,7 @@ mod verif_c03 {
         kani::cover!(c & 4 != 0);
     }
 
-    // @harness id=C03 tier=thorough timeout=3400 mem=16 checks=rust
+    // @harness id=C03 tier=deep timeout=3400 mem=16 checks=rust
     // @bounds suspend whose closure writes one line to the terminal, from any Inv_multi state with zombie pattern 11 (bit i = member i is a dropped bar still in the order)
     #[kani::proof]
     #[kani::unwind(6)]
